@@ -89,13 +89,16 @@ func checkC01(c *Ctx) {
 		}
 		hr := p.hr
 		variants := []struct {
-			name string
-			opt  SpawnOpt
-			sub  string
+			name    string
+			opt     SpawnOpt
+			sub     string
+			restart int // per-mille probability of a process restart after a commit ("independently started" replicas)
 		}{
-			{"tz-gomaxprocs1-gogc5", SpawnOpt{Env: []string{"TZ=Asia/Seoul", "GOMAXPROCS=1", "GOGC=5"}}, "twin-a/" + strings.Repeat("deep/", 8)},
-			{"race-gogcoff", SpawnOpt{Race: true, Env: []string{"TZ=America/Anchorage", "GOGC=off", "GOMAXPROCS=16"}}, "b"},
+			{"tz-gomaxprocs1-gogc5", SpawnOpt{Env: []string{"TZ=Asia/Seoul", "GOMAXPROCS=1", "GOGC=5"}}, "twin-a/" + strings.Repeat("deep/", 8), 0},
+			{"race-gogcoff", SpawnOpt{Race: true, Env: []string{"TZ=America/Anchorage", "GOGC=off", "GOMAXPROCS=16"}}, "b", 0},
+			{"restarting", SpawnOpt{Env: []string{"TZ=UTC", "GOMAXPROCS=3"}}, "c", 250},
 		}
+		rrng := c.Rng("c01-restart", i)
 		if c.Quick() && i%3 != 0 {
 			variants[1].opt.Race = false // the race build is ~8x slower: every third history in quick
 		}
@@ -124,6 +127,19 @@ func checkC01(c *Ctx) {
 				}
 				if a, bb := eventsView(hr.Results[bi].End.Events)+eventsView(hr.Results[bi].Begin.Events), eventsView(res.End.Events)+eventsView(res.Begin.Events); a != bb {
 					c.Note("block events differ between replicas (not a listed observable)")
+				}
+				if v.restart > 0 && bi+1 < len(hr.Results) && rrng.Intn(1000) < v.restart {
+					if err := r.Stop(); err != nil {
+						c.Err(i, "twin stop", err)
+						return
+					}
+					r, _, err = openReplica(c, dir, hr.G.G, v.opt, false)
+					if err != nil {
+						c.Err(i, "twin reopen", err)
+						return
+					}
+					_ = r.SetTimes(hr.Times)
+					c.Count("twin-process-restarts", 1)
 				}
 			}
 			info2, err := r.Info()
